@@ -104,6 +104,15 @@ CHECKS = {
         "note": "Trusted: FxHashMap iteration is a function of insertion history; environment variables are inputs.",
         "technique": "exhaustive type-based call scan (who-may-call / disallowed-source rule) on rustc MIR with consumer classification",
     },
+    "C41": {
+        "text": "Partial, static: the Hydro code generator writes DFIR surface syntax as text templates that are only checked against dfir_lang's operator table when the user's crate is "
+                "built. Decided: every operator invocation in those templates (emit_core, production and simulator builders, deploy glue; 165 today, incl. 8 whose name is interpolated "
+                "from a closed set of literals) names an operator dfir_lang defines, with exactly its num_args arguments, persistence-lifetime and type-argument counts inside its ranges, "
+                "and only input ports it declares. NOT decided: that arbitrary compositions partition without same-tick cycles or that the Rust inside the templates type-checks "
+                "(quantifies over programs).",
+        "note": "writer/reader table agreement; both sides are read from the current source with syn on every run.",
+        "technique": "writer/reader table cross-check: template tokenisation of the generator (syn) against OperatorConstraints constants (syn)",
+    },
     "C42": {
         "text": "Claimed as an absence argument over the generators: every non-test body of dfir_lang and of hydro_lang (except viz, the sim runtime and telemetry) is scanned on the "
                 "type-checked MIR: no hash-order iteration over RandomState collections reaches generated output (type-based detection incl. into_iter/retain/drain/Flatten; "
@@ -147,9 +156,11 @@ CHECKS = {
         "text": "Partial, static ('all compile or all fail' side): the colouring relation can_connect_colorize is read off its compiled match by evaluating all 25 (Option<Color>, "
                 "Option<Color>) cases on the MIR: it is total, never joins Push->Pull / Comp->Pull / Comp->Comp / a handoff, and accepts every legal pull-then-push pair; each of the "
                 "16 operator generators that unconditionally assert one placement has an arity table for which DfirGraph::node_color forces exactly that placement (operator table "
-                "read with syn), and no generator panics on one placement only. Equality of outputs between placements is NOT decided.",
+                "read with syn), and no generator panics on one placement only. On the 'same outputs' side one structural necessary condition is decided: every eager drain of an operator input in "
+                "the emitted code (Pull::for_each / accumulate helpers, followed through interpolated sub-templates) is unconditional, so whether an upstream lazily pulled stateful "
+                "operator is driven on a tick does not depend on data. Equality of outputs between placements in general is NOT decided.",
         "note": "node_color's degree rule is transcribed in the checker and cross-checked against the 16 asserting operators.",
-        "technique": "decision-table extraction by enum-domain evaluation of MIR + operator-table consistency (syn)",
+        "technique": "decision-table extraction by enum-domain evaluation of MIR + operator-table consistency and template nesting analysis (syn)",
     },
     "C28": {
         "text": "Partial, static: the three mechanisms the property names. (1) Type gates: the proof-marker tables (ValidCommutativityFor, ValidIdempotenceFor, the four ValidMut*For tables incl. "
